@@ -47,6 +47,10 @@ AllOps == ArithOps \cup CmpOps \cup BoolOps
 D1Bin(ops) == {BinA(o, x, y) : o \in ops, x \in Leaves(0), y \in Leaves(0)}
 D1F1(u_) == {F1A(f, x) : f \in F1, x \in Leaves(0)} \cup {NegA(x) : x \in Leaves(0)} \cup {Fn0A(f) : f \in F0}
 D1F2(u_) == {F2A(f, x, y) : f \in F2, x \in StrLeaves(0) \cup TreeLeaves \cup SmallNums \cup BoolLeaves, y \in StrLeaves(0) \cup TreeLeaves}
+\* re-match: subjects x patterns of the judged regex subset
+RxSubjects == {L(""), L("a"), L("abc"), L("xabcx"), L("ab"), L("aab"), L("a~b"), L("abcd"), L("b"), Rel1("vnum"), Rel1("vabs"), N1}
+RxPatterns == {L(""), L("a"), L("abc"), L("a*"), L("a*b"), L("a.c"), L(".*"), L(".+b"), L("ab|cd"), L("a|abc"), L("ab?c?"), L("a+b"), L(".."), L("12"), L("1")}
+D1Rx(u_) == {F2A("re-match", x, y) : x \in RxSubjects, y \in RxPatterns}
 SubArgs == SmallNums \cup Specials \cup {N("3", Num(3)), N("1.5", Fin(FALSE, 3, 2)), L("2"), L("x"), Rel1("vabs"), Rel1("vnum")}
 D1F3(u_) == {F3A("substring", s, p, l) : s \in {L("12345"), L("a~b^c"), L(""), Rel1("vtxt"), Rel1("vabs")}, p \in SubArgs, l \in SubArgs}
         \cup {F3A("translate", x, y, z) : x \in SmallStrs \cup {Rel1("vtxt")}, y \in SmallStrs, z \in {L(""), L("a"), L("12"), L("~"), L("^xy")}}
@@ -132,7 +136,7 @@ Family(i) ==
     [] i = 3 -> D1Bin({"<", "<=", ">", ">="})
     [] i = 4 -> D1Bin(BoolOps) \cup D1F1(0)
     [] i = 5 -> D1F2(0)
-    [] i = 6 -> D1F3(0)
+    [] i = 6 -> D1F3(0) \cup D1Rx(0)
     [] i = 7 -> D2Conv(0)
     [] i = 8 -> D2OverArith(0)
     [] i = 9 -> D2Bin(ArithOps, 0, 1)
